@@ -1010,8 +1010,9 @@ class CircuitTemplate(AbstractBaseTemplate):
                             node_key = "/".join((n, n2))
                             if node_key not in nodes:
                                 nodes.append(node_key)
-                    else:
+                    elif len(node_identifier) == 1:
                         nodes.append(n)
+                    # (else: the identifier continues below a node - it is longer than the hierarchy and matches nothing)
             else:
                 net_tmp = net[node_lvl]
                 if isinstance(net_tmp, CircuitTemplate):
@@ -1019,7 +1020,7 @@ class CircuitTemplate(AbstractBaseTemplate):
                         node_key = "/".join((node_lvl, n))
                         if node_key not in nodes:
                             nodes.append(node_key)
-                else:
+                elif len(node_identifier) == 1:
                     nodes.append(node_lvl)
 
             return self._get_nodes_with_var(var_identifier, nodes=nodes)
